@@ -65,8 +65,15 @@ def _label_nodes(tree, nodes, prefix=""):
         _LBL[id(n)] = f"{prefix}#{i}({n._data!r})"
 
 
+class _Mark:
+    def __repr__(self):
+        return "<appended by the caller>"
+
+
 class _Ctx:
     """Collects violations of one tree."""
+
+    internal: set = frozenset()
 
     def __init__(self, prop, wit):
         self.prop = prop
@@ -112,6 +119,17 @@ class _Ctx:
         ok, v = self.call(func, fn, **at)
         if ok and not (isinstance(v, list) and _same(v, expected)):
             self.bad(func, clause, f"returned {_r(v)}, structure says {_r(expected)}", **at)
+        elif ok and isinstance(v, list) and id(v) not in self.internal:
+            # the caller owns a computed result: what it does to the list must not show in later answers
+            # (a node's own child list / clone list, which some queries hand out as it is, is left alone)
+            mark = _Mark()
+            v.append(mark)
+            ok2, v2 = self.call(func, fn, **at)
+            if ok2 and isinstance(v2, list) and any(e is mark for e in v2):
+                self.bad(func, clause, "the result list is shared between calls: after the caller appended to it, the same query answers with the appended element too", **at)
+            for k in range(len(v) - 1, -1, -1):
+                if v[k] is mark:
+                    del v[k]
         return v if ok else None
 
     def raises(self, func, clause, fn, exc, **at):
@@ -179,6 +197,7 @@ def check_tree(prop, tree, nodes, wit, *, foreign=None, res: Result | None = Non
     """Evaluate every clause of C10 on `tree`.  `nodes` are the nodes in spec order (used
     for witness indexes).  `foreign`: nodes of a different tree for the cross-tree clause."""
     cx = _Ctx(prop, wit)
+    cx.internal = {id(n._children) for n in [tree._root] + view.reachable(tree) if n._children is not None} | {id(lst) for lst in tree._nodes_by_data_id.values()}
     _label_nodes(tree, nodes)
     if foreign:
         _label_nodes(foreign[0]._tree, foreign, prefix="other")
